@@ -19,6 +19,8 @@ import (
 	"strings"
 	"time"
 
+	"github.com/safing/portbase/modules"
+
 	"verifharness/internal/vlib"
 )
 
@@ -52,6 +54,8 @@ func scenarioList(cfg vlib.Cfg) []Scenario {
 	add(cfg.N(32, 200), "shared", genShared)
 	add(cfg.N(120, 1200), "burst", genBurst)
 	add(cfg.N(40, 400), "firstuse", genFirstUse)
+	add(cfg.N(40, 400), "inburst", genInBurst)
+	add(cfg.N(6, 40), "cfgdb", genCfgDB)
 	add(cfg.N(200, 2400), "hooks", genHooks)
 	return out
 }
@@ -64,8 +68,10 @@ func batchSize(class string) int {
 		return 28
 	case "shared":
 		return 12
-	case "burst", "firstuse":
+	case "burst", "firstuse", "inburst":
 		return 10
+	case "cfgdb":
+		return 1 // the module system is started once per process
 	}
 	return 7
 }
@@ -73,7 +79,10 @@ func batchSize(class string) int {
 // in-scope functions of the race filter: the state the property's mechanism is made
 // of (Controller.subscriptions, Controller.hooks, Subscription.Feed close/send).
 var raceScope = []string{"notifySubscribers", "addSubscription", "Subscription).Cancel", "RegisteredHook).Cancel", "RegisterHook",
-	"runPreGetHooks", "runPostGetHooks", "runPrePutHooks", "Interface).Subscribe", "PushUpdate"}
+	"runPreGetHooks", "runPostGetHooks", "runPrePutHooks", "Interface).Subscribe", "PushUpdate",
+	// the query object a subscription/hook was created from is shared by all writers
+	// (evaluated under read locks only)
+	"portbase/database/query."}
 
 func main() {
 	if dir, ok := vlib.IsChild(); ok {
@@ -162,7 +171,19 @@ func main() {
 		}
 		if !c.Done {
 			tail := c.StderrTail(3000)
-			site := fatalSite(tail)
+			// the reason of a runtime abort is the first line of stderr, the tail is
+			// the end of the goroutine dump
+			head := ""
+			if hb, err := os.ReadFile(filepath.Join(c.Dir, "stderr")); err == nil {
+				if len(hb) > 4000 {
+					hb = hb[:4000]
+				}
+				head = string(hb)
+			}
+			site := fatalSite(head)
+			if site == "unknown" {
+				site = fatalSite(tail)
+			}
 			cur := progressOf(c.Dir)
 			var sc *Scenario
 			for k := range bs.Scenarios {
@@ -175,7 +196,7 @@ func main() {
 				share = "shared-query"
 			}
 			rep.Violation("C14:child-died:"+site+":"+share, fmt.Sprintf("child %s died (exit=%d signal=%q) while running scenario %s", c.Name, c.Exit, c.Signal, cur),
-				map[string]any{"scenario": sc, "stderr_tail": tail, "build": bs.Kind})
+				map[string]any{"scenario": sc, "stderr_head": head, "stderr_tail": tail, "build": bs.Kind})
 		}
 	})
 
@@ -261,11 +282,32 @@ func childMain(dir string) {
 		fmt.Println("bad spec:", err)
 		os.Exit(3)
 	}
+	b := vlib.NewBatch()
+	if len(bs.Scenarios) > 0 && bs.Scenarios[0].Class == "cfgdb" {
+		// the database system is initialised by the database module
+		if err := startModulesForConfig(dir); err != nil {
+			b.Inconclusive("cfgdb: cannot start the module system: %v", err)
+			b.Finish(dir)
+			return
+		}
+		n := bs.Repeat
+		if n < 1 {
+			n = 1
+		}
+		for ; n > 0; n-- {
+			for i := range bs.Scenarios {
+				_ = os.WriteFile(filepath.Join(dir, "progress"), []byte(fmt.Sprint(bs.Scenarios[i].ID)), 0o644)
+				runCfgDB(b, &bs.Scenarios[i])
+			}
+		}
+		_ = modules.Shutdown()
+		b.Finish(dir)
+		return
+	}
 	if err := initDatabaseSystem(filepath.Join(dir, "dbroot")); err != nil {
 		fmt.Println("cannot initialise database system:", err)
 		os.Exit(3)
 	}
-	b := vlib.NewBatch()
 	rounds := bs.Repeat
 	if rounds < 1 {
 		rounds = 1
@@ -310,6 +352,12 @@ func runScenario(b *vlib.Batch, sc *Scenario) {
 			b.Seen("pair_templates", sc.Plan.Template+"/"+sc.Plan.ParkedOp)
 			b.Seen("interleavings", w.parks.signature())
 		}
+		finishSubCase(b, r, nv)
+	case "inburst":
+		r := runInBurst(w, sc)
+		r.judge(b)
+		b.Count("inburst_rounds", int64(len(sc.Burst.Rounds)))
+		b.Max("inburst_max_writers", int64(len(sc.Writers)))
 		finishSubCase(b, r, nv)
 	case "burst", "firstuse":
 		r := runBurst(w, sc)
